@@ -63,11 +63,12 @@ PROPS = {
         rule=BLOCK_RULE, assumptions=BLOCK_ASSUME + ['C05_bounds lower bound assumes intrinsic + refundCounter <= gas used before refund (geth gas table: every refunded unit was paid for); E-block checks intrinsic <= gasUsed on every committed tx'],
     ),
     'C06': dict(
-        lean_modules=['Model.Block', 'Properties.C05', 'Properties.C06', 'Facts.Block'],
+        lean_modules=['Model.Block', 'Model.Ante', 'Properties.C05', 'Properties.C06', 'Properties.C07', 'Facts.Block', 'Facts.Ante'],
         facts=['*'],
         theorems=['C06_authorised', 'C06_seq_plus_one', 'C06_seq_unchanged', 'C06_seq_monotone', 'C06_no_replay', 'C06_seq_counts',
-                  'fact_nonce_flag_used', 'fact_ante_order'],
-        engines=[dict(name='block', test='TestEngineBlock', quick=500, thorough=6000, thorough_seeds=3)],
+                  'C07_handler_unreachable', 'C07_cosmos_lane', 'fact_nonce_flag_used', 'fact_ante_order', 'fact_ante_chain', 'fact_disabled_list'],
+        engines=[dict(name='block', test='TestEngineBlock', quick=500, thorough=6000, thorough_seeds=3),
+                 dict(name='ante', test='TestEngineAnte', quick=250, thorough=3000, thorough_seeds=2)],
         rule=BLOCK_RULE, assumptions=BLOCK_ASSUME + ['Cosmos-lane signature verification is the SDK decorator (trusted); only its sequence effect is modelled'],
     ),
     'C13': dict(
@@ -89,13 +90,14 @@ PROPS = {
                      'the interpreter uses the StateDB only as snapshot; body; revert-on-failure (evm.Call/Create) — call-tree theorem; arbitrary API sequences are covered by C03_revert_exact'],
     ),
     'C09': dict(
-        lean_modules=['Model.FeeMarket', 'Properties.C09', 'Facts.C09'],
+        lean_modules=['Model.FeeMarket', 'Model.Block', 'Properties.C09', 'Facts.C09'],
         facts=['*'],
         theorems=['C09_unchanged_at_target', 'C09_increase_exact', 'C09_decrease_exact', 'C09_increase_strict',
                   'C09_decrease_le', 'C09_ge_floor_min', 'C09_total_no_divzero', 'C09_total', 'C09_keeper_exact',
                   'C09_zero_target_keeps', 'C09_admission', 'C09_admission_implies_precheck',
-                  'fact_elasticity', 'fact_changeDenom', 'fact_london_always', 'fact_feemarket_endblock_last', 'fact_maxgas_guard'],
-        engines=[dict(name='feemarket', test='TestEngineFeemarket', quick=20000, thorough=400000, thorough_seeds=3, functional=True)],
+                  'fact_elasticity', 'fact_changeDenom', 'fact_london_always', 'fact_feemarket_endblock_last', 'fact_feemarket_after_gov', 'fact_maxgas_guard'],
+        engines=[dict(name='feemarket', test='TestEngineFeemarket', quick=20000, thorough=400000, thorough_seeds=3, functional=True),
+                 dict(name='block', test='TestEngineBlock', quick=500, thorough=6000, thorough_seeds=2)],
         rule='tuples (baseFee, MaxGas|nil, gasConsumed, minGasPrice mantissa) drawn from edge classes (0,1,2^63,2^256-1, around target/limit, MaxGas in {-1,0,1,2,3,..}) and uniform bit-lengths; non-trivial = baseFee>0 and gasConsumed>0; distinct by op line hash',
         assumptions=['geth CalcBaseFee is the compiled fork function (exercised, constants regenerated)',
                      'admission theorem is about the fee checker arithmetic; that the checker runs for every delivered tx is C07/E-ante'],
